@@ -17,7 +17,7 @@ RULE = ("clock period pairs from {2..30} (equal, integer and non-integer ratios,
 TRUSTED = ["Migen's simulator treats MultiReg as two plain registers: metastability and sampling of a changing multi-bit bus are outside the model (that is what the gray code is for)",
            "AsyncResetSynchronizer / with_common_rst is not used by LiteDRAMNativePortCDC and not modelled"]
 ASSUMPTIONS = ["stream masters hold valid and payload until ready",
-               "get_port scenario: a write's data is offered with its command; same-type commands inside one wide word ascend unless separated by cmd.last "
+               "get_port scenario: at most 10 controller words of read data outstanding (the crossbar cannot be back-pressured on read data; the CDC's read FIFO holds 16); a write's data is offered with its command; same-type commands inside one wide word ascend unless separated by cmd.last "
                "(up-converter's documented limitation; in half of the runs only where the converter really merges, the master then holds its "
                "address lines while idle); controller stub: serial, waits for the master's wdata.valid"]
 
@@ -215,6 +215,7 @@ def getport_sim(c, rnd, ncycles, cd="usr"):
         rready = 0
         idle = 0
         hold = 0
+        nrd_issued = 0
         for cyc in range(ncycles * max(1, -(-c['ps'] // c['pu']))):
             if cv and (yield port.cmd.ready):
                 cv = 0; log["ncmd"] += 1
@@ -225,8 +226,12 @@ def getport_sim(c, rnd, ncycles, cd="usr"):
             if k < len(ops) and not cv and not wv and log["ncmd"] == k and not (k == c["nmain"] and hold is not None):
                 if gap > 0:
                     gap -= 1
+                elif ops[k][0] == "r" and (nrd_issued - len(log["rd"]) + 1) * max(1, udw // ndw) > 10:
+                    pass        # the crossbar cannot be back-pressured on read data: a master keeps its outstanding reads within
+                                # what it can absorb (here: the CDC's 16-word read FIFO), as the DMA reader does with its reservations
                 else:
                     o = ops[k]; cv = 1; wv = int(o[0] == "w")
+                    nrd_issued += int(o[0] == "r")
                     yield port.cmd.addr.eq(o[1]); yield port.cmd.we.eq(int(o[0] == "w")); yield port.cmd.last.eq(o[4])
                     if wv:
                         yield port.wdata.data.eq(o[2]); yield port.wdata.we.eq(o[3])
